@@ -12,6 +12,7 @@ import (
 	"runtime/pprof"
 	"strconv"
 	"strings"
+	"verif/internal/gen"
 
 	"verif/internal/ev"
 	"verif/props"
@@ -93,6 +94,7 @@ func main() {
 	if rf != nil {
 		run.SetReplaying(rf)
 	}
+	run.Count("extra_wallet_backends_registered_by_the_harness", int64(len(gen.ExtraBackends)))
 	e.Run(run, cfg)
 	os.Exit(run.Finish())
 }
